@@ -6,8 +6,11 @@ import (
 	"context"
 	"encoding/json"
 	"fmt"
+	"github.com/ory/keto/internal/driver/config"
 	"math/rand/v2"
 	"net/http"
+	"os"
+	"path/filepath"
 	"sort"
 	"strings"
 	"testing"
@@ -193,6 +196,26 @@ func runC02Case(run *runner, idx int64, cc *checkCase, gs, ws []int) string {
 	} else {
 		opts.Namespaces = cc.Cfg.toKeto()
 	}
+	// every fourth case configures the limits the way a deployment does: in the
+	// server's configuration FILE, changed by editing the file (hot reload), not by
+	// Config.Set
+	fileMode := idx%4 == 3
+	cfgFile := ""
+	if fileMode {
+		dir, derr := os.MkdirTemp(scratchDir(), "c02cfg")
+		if derr != nil {
+			fileMode = false
+		} else {
+			defer os.RemoveAll(dir)
+			cfgFile = filepath.Join(dir, "keto.yaml")
+			if werr := os.WriteFile(cfgFile, []byte("limit:\n  max_read_depth: 8\n  max_read_width: 100\n"), 0o644); werr != nil {
+				fileMode = false
+			} else {
+				opts.MaxDepth, opts.MaxWidth, opts.ConfigFile = 0, 0, cfgFile
+				run.count("cases_limits_from_config_file", 1)
+			}
+		}
+	}
 	env, err := newEnv(run.t, opts)
 	if err != nil {
 		run.inconclusive(fmt.Sprintf("idx %d: env: %v", idx, err))
@@ -224,6 +247,38 @@ func runC02Case(run *runner, idx int64, cc *checkCase, gs, ws []int) string {
 			dw = w
 		}
 		if dg == 0 && dw == 0 {
+			return true
+		}
+		if fileMode {
+			tmp := cfgFile + ".tmp"
+			if err := os.WriteFile(tmp, []byte(fmt.Sprintf("limit:\n  max_read_depth: %d\n  max_read_width: %d\n", g, w)), 0o644); err != nil {
+				run.inconclusive("config file: " + err.Error())
+				return false
+			}
+			if err := os.Rename(tmp, cfgFile); err != nil {
+				run.inconclusive("config file: " + err.Error())
+				return false
+			}
+			// wait until the provider has loaded the new file (its raw values, not the getters)
+			src := env.Reg.Config(env.Ctx).Source()
+			dl := time.Now().Add(5 * time.Second)
+			for (src.Int(config.KeyLimitMaxReadDepth) != g || src.Int(config.KeyLimitMaxReadWidth) != w) && time.Now().Before(dl) {
+				time.Sleep(time.Millisecond)
+			}
+			if src.Int(config.KeyLimitMaxReadDepth) != g || src.Int(config.KeyLimitMaxReadWidth) != w {
+				run.inconclusive(fmt.Sprintf("idx %d: the configuration file with depth %d width %d was not loaded within 5 s", idx, g, w))
+				return false
+			}
+			run.count("config_file_reloads", 1)
+			time.Sleep(2 * time.Millisecond) // the attached watchers run right after the values changed
+			run.eval(1)
+			if gd, gw := env.Reg.Config(env.Ctx).MaxReadDepth(), env.Reg.Config(env.Ctx).MaxReadWidth(); gd != g || gw != w {
+				verdict = "violation"
+				run.violate(violation{Index: idx, Sub: fmt.Sprintf("%s/g%d/w%d", modeName, g, w), Sig: "C02:limit-from-config-file-not-in-effect",
+					Summary: fmt.Sprintf("the configuration file was hot-reloaded with limit.max_read_depth=%d, limit.max_read_width=%d (the provider holds these values), but the limits the engines read are depth %d, width %d", g, w, gd, gw),
+					Case:    cc, Detail: map[string]any{"configured": []int{g, w}, "in_effect": []int{gd, gw}}})
+			}
+			curG, curW = g, w
 			return true
 		}
 		if err := env.SetLimit(dg, dw); err != nil {
